@@ -83,13 +83,19 @@ def oid_of(ob):
 class Policy:
     deny = frozenset()
     allow_underscore = False      # True: a permissive guard that has no underscore rule of its own
+    # a guard whose verdict depends on the context the object is reached through (as access-control systems do: another
+    # acquisition path, another executable on the stack): (o, a) -> number of requests it grants before it starts refusing
+    grants = {}
+    asked = {}
 
 
 def guarded_getattr(ob, name):
     from zExceptions import Unauthorized
     o = oid_of(ob)
     LOG.append({'e': 'genter', 'o': o, 'a': name})
-    if (o, name) in Policy.deny or (name[:1] == '_' and not Policy.allow_underscore):
+    Policy.asked[(o, name)] = Policy.asked.get((o, name), 0) + 1
+    revoked = (o, name) in Policy.grants and Policy.asked[(o, name)] > Policy.grants[(o, name)]
+    if revoked or (o, name) in Policy.deny or (name[:1] == '_' and not Policy.allow_underscore):
         LOG.append({'e': 'gexit', 'o': o, 'a': name, 'r': 'deny'})
         raise Unauthorized(name)
     try:
@@ -412,6 +418,47 @@ def run_tree_attr(secret, mode, ctx, variant):
             'shown': secret in out, 'po': 'k1', 'pa': battr, 'src': src, 'ctx': '%s/%s' % (ctx, mode)}, out
 
 
+REVOKE_SRC = [
+    ('with-with', '<dtml-with o>[<dtml-var x>]</dtml-with>|<dtml-with o>[<dtml-var x>]</dtml-with>'),
+    ('with-in', '<dtml-with o>[<dtml-var x>]</dtml-with>|<dtml-in os>[<dtml-var x>]</dtml-in>'),
+    ('in-in', '<dtml-in os>[<dtml-var x>]</dtml-in>|<dtml-in os>[<dtml-var x>]</dtml-in>'),
+    ('in-with-nested', '<dtml-in os>[<dtml-var x>]<dtml-with o>[<dtml-var x>]</dtml-with></dtml-in>'),
+    ('with-let-with', '<dtml-with o><dtml-let y=x>[<dtml-var y>]</dtml-let></dtml-with>|<dtml-with o>[<dtml-var x>]</dtml-with>'),
+    ('with-if-with', '<dtml-with o><dtml-if x>[<dtml-var x>]</dtml-if></dtml-with>|<dtml-with o><dtml-if x>[<dtml-var x>]</dtml-if></dtml-with>'),
+    ('client-with', '[<dtml-var x>]|<dtml-with o>[<dtml-var x>]</dtml-with>'),
+    ('with-expr-with', '<dtml-with "o">[<dtml-var x>]</dtml-with>|<dtml-with expr="(o,)">[<dtml-var x>]</dtml-with>'),
+    ('sub-with', '<dtml-var inner>|<dtml-with o>[<dtml-var x>]</dtml-with>'),
+]
+
+
+def run_revocation(name, src, secret, grants):
+    """the same object is reached twice in one rendering (each dtml-with / dtml-in element / client wraps it afresh); the guard
+    grants the attribute `grants` times and refuses it from then on.  Every wrapper asks for itself: the value is shown at most
+    as often as the guard granted it"""
+    from zExceptions import Unauthorized
+    o = Client('o', x=secret, pub='P')
+    kw = {'o': o, 'os': [o]}
+    if name == 'sub-with':
+        kw['inner'] = gclass()('<dtml-with o>[<dtml-var x>]</dtml-with>')
+    Policy.deny = frozenset()
+    Policy.grants = {('o', 'x'): grants}
+    Policy.asked = {}
+    del LOG[:]
+    try:
+        t = gclass()(src)
+        out = str(t(o, **kw)) if name == 'client-with' else str(t(**kw))
+        obs = 'value'
+    except Unauthorized:
+        out, obs = 'RAISED Unauthorized', 'unauthorized'
+    except BaseException as e:  # noqa
+        out, obs = 'RAISED %s: %s' % (type(e).__name__, str(e)[:100]), 'other:' + type(e).__name__
+    finally:
+        Policy.grants = {}
+    return {'ch': 'revocation-' + name, 'kind': 'name', 'cls': 'denied' if grants < 2 else 'public', 'ev': list(LOG), 'obs': obs,
+            'shown': secret in out, 'shown_n': out.count(secret), 'counted': True, 'po': 'o', 'pa': 'x', 'src': src,
+            'ctx': 'granted %d time(s)' % grants}, out
+
+
 def secrets(ch, which):
     """the value behind the probed attribute in run A / run B (same type, different content; for sort and
     statistics channels the two runs order / sum differently)"""
@@ -582,6 +629,14 @@ def main(tier):
                     common.machinery_failure('tree driver: no expand link for the probed node (%s, %s, %d)' % (ctx, mode, variant))
                 recs.append(ra)
                 meta.append((('tree-branches-attr', 'treeattr', ra['src'], None, ('k1', ra['pa'])), 'denied', ra, oa, rb, ob))
+    # a guard that grants an attribute once (twice, never) and refuses it afterwards, the object being reached twice
+    for name, src in REVOKE_SRC:
+        for grants in (0, 1, 2):
+            ra, oa = run_revocation(name, src, 'SECRET-A-VALUE', grants)
+            rb, ob = run_revocation(name, src, 'SECRET-B-VALUE', grants)
+            recs.append(ra)
+            meta.append((('revocation-' + name, 'name', src, None, ('o', 'x')), ra['cls'], ra, oa.replace('SECRET-A', 'SECRET-*'), rb,
+                         ob.replace('SECRET-B', 'SECRET-*')))
     # binding self-test: a trace whose guard call is removed must show an unmediated read
     n_real = len(recs)
     for r in list(recs[:200]):
@@ -595,7 +650,7 @@ def main(tier):
     cfg = 'SPECIFICATION Spec\nINVARIANT NestedCalls\nINVARIANT Verdict\nCHECK_DEADLOCK FALSE\n'
     res = tlc.run('DTGuard', cfg, files={'traces.json': json.dumps([dict({k: r[k] for k in ('kind', 'cls', 'ev', 'obs', 'shown', 'po', 'pa')},
                                                                          dset=r.get('dset', []), out_items=r.get('out_items', []),
-                                                                         multi='dset' in r)
+                                                                         multi='dset' in r, counted=bool(r.get('counted')), shown_n=r.get('shown_n', 0))
                                                                     for r in recs])},
                   on_print=lambda v: out.__setitem__(v['tid'], v), keep_prints=False, timeout=1200, coverage=(tier == 'thorough'))
     if res.violated:
@@ -617,6 +672,14 @@ def main(tier):
         unmediated = [u for u in v['unmediated']]
         if not v['expect_ok'] and ch[1] not in ENV_MEDIATED:
             drift.append({'channel': ch[0], 'ctx': ra.get('ctx'), 'cls': cls, 'expected': v['expect'], 'observed': ra['obs'], 'output': oa[:80]})
+        if ra.get('counted'):
+            if not v['granted_ok']:
+                V.violation({'kind': 'flow', 'channel': ch[0], 'channel_kind': 'revocation', 'context': ra.get('ctx'), 'source': ra['src'],
+                             'output_run_A': oa[:200], 'times_shown': ra['shown_n'], 'times_granted': v['granted'],
+                             'guard_log': [e for e in ra['ev'] if e['e'] != 'raw'][:10], 'cls': 'shown-more-often-than-granted'})
+            else:
+                V.count('cases_conform')
+            continue
         if 'dset' in ra and not v['items_ok']:
             V.violation({'kind': 'flow', 'channel': ch[0], 'channel_kind': ch[1], 'attribute_class': cls, 'context': ra.get('ctx'),
                          'source': ra['src'], 'refused_elements': ra['dset'], 'elements_shown': ra['out_items'], 'output_run_A': oa[:200],
